@@ -2,4 +2,5 @@ import GraphSlam.Props.C15.Frame
 import GraphSlam.Props.Tie.GraphPy
 import GraphSlam.Props.C15.HeapExamples
 import GraphSlam.Props.C15.HeapObsExamples
+import GraphSlam.Props.C15.HeapNumOptExamples
 /-! C15 — umbrella. -/
